@@ -58,8 +58,18 @@ func vEq(a, b []byte) bool                                 { return false }
 func vSha256(b []byte) []byte                              { return nil }
 `
 
+var preludeNames = func() map[string]bool {
+	m := map[string]bool{}
+	for _, l := range strings.Split(preludeText, "\n") {
+		if strings.HasPrefix(l, "func ") {
+			m[l[5:strings.Index(l, "(")]] = true
+		}
+	}
+	return m
+}()
+
 func isHarnessFn(fn *ssa.Function) bool {
-	if fn.Prog == nil {
+	if fn.Prog == nil || !preludeNames[fn.Name()] {
 		return false
 	}
 	f := fn.Prog.Fset.Position(fn.Pos()).Filename
